@@ -345,7 +345,7 @@ func genConstHeavy(rt *rapid.T, w *gen.World) *ir.Policy {
 func TestRandomPolicies(t *testing.T) {
 	ev.SetChecks(ev.Scale(12000, 1500000))
 	nworlds := ev.Pick(2, 4)
-	rapid.Check(t, func(rt *rapid.T) {
+	ev.Check(t, func(rt *rapid.T) {
 		w := gen.GenWorld(rt, 4, gen.DefaultValOpts)
 		c := &Case{Policy: genConstHeavy(rt, &w), Worlds: []gen.World{w, {Req: w.Req}}}
 		for i := 0; i < nworlds; i++ {
@@ -364,6 +364,9 @@ func TestReplay(t *testing.T) {
 	}
 	if err != nil {
 		t.Fatal(err)
+	}
+	if ev.ReplayFuzz(t, rf, fuzzProps, nil) {
+		return
 	}
 	var c Case
 	if err := json.Unmarshal(rf.Case, &c); err != nil || c.Policy == nil {
